@@ -9,6 +9,7 @@ package bpv7
 //	orig <hex> <verdict>               generated bundle (CRC on every block), serialised and re-parsed
 //	mut  <orighex> <off> <xorhex> <verdict>   ParseBundle on orig with <xorhex> xor-ed in at byte <off>
 //	direct <name> <hex> <verdict>      hand-made encodings (CRC type / array length edge, non-shortest heads)
+//	adversarial <hex> <off> <xorhex> <verdict> <verdict-mutated>   crafted payload, one bit of its length flipped
 //
 // verdict = accept | crc ("invalid CRC value") | other | panic
 
@@ -322,6 +323,37 @@ func verifC03Mutations(w *bufio.Writer, r *verifC03Rng, vb *verifC03Bundle, perS
 	return
 }
 
+// verifC03Adversarial: a payload chosen such that ONE flipped bit of the payload length moves the block
+// boundary onto a correct CRC item and a break byte inside the payload (DESIGN §8 C03, "deliberately
+// not a theorem"). Both encodings are expected to be accepted; the driver only compares with the model.
+func verifC03Adversarial(w *bufio.Writer, r *verifC03Rng) {
+	for _, t := range []CRCType{CRC16, CRC32} {
+		n := 2 * int(t)
+		b, err := Builder().Source("dtn://s/").Destination("dtn://d/").
+			CreationTimestampTime(verifC03Time).Lifetime(verifC03Century).PayloadBlock([]byte{0}).Build()
+		if err != nil {
+			panic(err)
+		}
+		b.PrimaryBlock.SetCRCType(t)
+		var p bytes.Buffer
+		_ = b.PrimaryBlock.MarshalCbor(&p)
+		a := r.bytes(12)
+		inner := append([]byte{0x86, 1, 1, 0, byte(t), 0x58, 0x0c}, a...)
+		c1 := verifC03Raw(t, append(append(append([]byte{}, inner...), byte(0x40+n)), make([]byte, n)...))
+		payload := append(append(append(append([]byte{}, a...), byte(0x40+n)), c1...), 0xff)
+		payload = append(payload, r.bytes(44-len(payload))...)
+		outer := append([]byte{0x86, 1, 1, 0, byte(t), 0x58, 0x2c}, payload...)
+		c2 := verifC03Raw(t, append(append(append([]byte{}, outer...), byte(0x40+n)), make([]byte, n)...))
+		enc := append([]byte{0x9f}, p.Bytes()...)
+		off := len(enc) + 6
+		enc = append(enc, outer...)
+		enc = append(append(append(enc, byte(0x40+n)), c2...), 0xff)
+		m := append([]byte{}, enc...)
+		m[off] ^= 0x20
+		fmt.Fprintf(w, "adversarial %s %d 20 %s %s\n", verifC03Hex(enc), off, verifC03Parse(enc), verifC03Parse(m))
+	}
+}
+
 // verifC03Direct: hand-made encodings around the "declares a CRC" edge.
 func verifC03Direct(w *bufio.Writer, r *verifC03Rng) {
 	emit := func(name string, enc []byte) {
@@ -414,6 +446,19 @@ func verifC03Direct(w *bufio.Writer, r *verifC03Rng) {
 		emit("primary-long-array-head-crc-over-received-"+tag, bundle(x, pay))
 		x = append([]byte{0x98, 0x09}, prim[1:]...)
 		emit("primary-long-array-head-crc-over-short-"+tag, bundle(x, pay))
+		// "unset" CRC values must not be accepted
+		for _, fill := range []byte{0x00, 0xff} {
+			x = append([]byte{}, pay...)
+			for i := 0; i < n; i++ {
+				x[len(x)-n+i] = fill
+			}
+			emit(fmt.Sprintf("canonical-crc-value-all-%02x-%s", fill, tag), bundle(prim, x))
+			x = append([]byte{}, prim...)
+			for i := 0; i < n; i++ {
+				x[len(x)-n+i] = fill
+			}
+			emit(fmt.Sprintf("primary-crc-value-all-%02x-%s", fill, tag), bundle(x, pay))
+		}
 		// a break byte where the CRC item of the last block should start
 		x = append([]byte{}, pay...)
 		x[len(x)-1-n] = 0xff
@@ -498,6 +543,7 @@ func TestVerifC03(t *testing.T) {
 	}
 
 	verifC03Direct(w, r)
+	verifC03Adversarial(w, r)
 
 	// (ii) generated bundles, all three CRC mixes
 	nBundles, maxPayload, perStart := 27, 60, 2
